@@ -7,9 +7,12 @@ CONSTANTS
   Pausables = {"pdet"}
   Flyers = {}
   AsyncDevs = {}
+  Suspenders <- XSus
+  SigOf <- SigOfDef
+  SusFuts <- SusFutsDef
   ReadVal <- ReadValDef
   DataKeys <- DataKeysDef
-  FutNames = {"f1", "f2"}
+  FutNames = {"f1", "f2", "s1a", "s1b", "s1c", "s1d", "s2a", "s2b", "s2c", "s2d"}
   StreamOrder <- StreamOrderDef
   DevOrder <- DevOrderDef
   PlanLib <- PlanLibDef
